@@ -579,6 +579,12 @@ pub(crate) fn root_node_from_str(input_str: &str, user_data: Rc<AssocFileData>) 
         bail!(error)
     }
 
+    // Some malformed inputs (a run of unclosed `[`, for one) make the generated parser backtrack
+    // exponentially. Bound the work in proportion to the size of the source: the example
+    // programs need fewer than 50 rule calls per byte.
+    let call_limit = 3_000_000usize.saturating_add(input_str.len().saturating_mul(5_000));
+    pest::set_call_limit(std::num::NonZeroUsize::new(call_limit));
+
     let x = util::parse_with_userdata_features(Rule::file, input_str, user_data);
 
     x.and_then(|x| x.single().map_err(Box::new))
